@@ -288,6 +288,19 @@ Proof.
            ++ change (dbfile sd) with (dbfile s). unfold lenN. destruct (dbfile s); [contradiction|]. cbn [length]. lia.
 Qed.
 
+(* ---- a transaction forwarded by a replica that holds the halt lock (handlePostTx): it has to continue the position and
+   its body has to verify; then it is placed and applied like a file from the stream ---- *)
+Definition fwd_refused (s : st) (f : ltxrec) (body_ok : bool) : bool := negb (extends_pos s f) || negb body_ok.
+Lemma forward_step s v f ok oc s' : GInv s v -> wf_recv s f -> op_forward s f ok = (oc, s') -> oc = Done \/ oc = Failed ->
+  GInv s' (if fwd_refused s f ok then v else file_h s') /\ lockpg s' = lockpg s.
+Proof.
+  intros HI Hwf H Hoc. unfold op_forward in H. unfold fwd_refused.
+  destruct (extends_pos s f) eqn:Ee; cbn [negb orb] in *; [|inversion H; subst; auto].
+  destruct ok; cbn [negb] in *; [|inversion H; subst; auto].
+  assert (op_receive s f = (oc, s')) as Hr by (unfold op_receive; rewrite Ee, andb_false_r; exact H).
+  destruct (recv_step s v f oc s' HI Hwf Hr Hoc) as [A B]. unfold refused in A. rewrite Ee, andb_false_r in A. auto.
+Qed.
+
 (* ---- the database is dropped ---- *)
 Lemma ginv_cache s v : GInv s v -> CacheOK s /\ LockZero s.
 Proof. unfold GInv. destruct (wal_mode s); intros [A _]; destruct A; auto. Qed.
@@ -352,6 +365,7 @@ Inductive gstep :=
 | GLeave (q : pg) (c : N)                           (* the way back: the log removed, page 1 rewritten under a rollback journal *)
 | GRestart                                          (* LiteFS restarts: Open *)
 | GRecv (f : ltxrec)                                (* a transaction file arrives on the stream: refused, or applied *)
+| GForward (f : ltxrec) (body_ok : bool)            (* a replica holding the halt lock forwards a transaction *)
 | GDrop                                             (* the database is dropped *)
 | GImport (pages : list (N * pg)) (commit : N).     (* a database image is imported over whatever is there *)
 Definition grun (s : st) (g : gstep) : option st :=
@@ -362,6 +376,7 @@ Definition grun (s : st) (g : gstep) : option st :=
   | GLeave q c => match run_group s (leave_ops q c) with (0, s') => Some s' | _ => None end
   | GRestart => match op_open s with (Done, s') => Some s' | _ => None end
   | GRecv f => match op_receive s f with (Done, s') | (Failed, s') => Some s' | _ => None end
+  | GForward f ok => match op_forward s f ok with (Done, s') | (Failed, s') => Some s' | _ => None end
   | GDrop => match op_drop s with (Done, s') => Some s' | _ => None end
   | GImport pages commit => match op_import s pages commit true with (Done, s') => Some s' | _ => None end
   end.
@@ -370,6 +385,7 @@ Definition gview (s s' : st) (g : gstep) (v : N -> N) : N -> N :=
   match g with
   | GW o => wop2_view (lockpg s) o v
   | GRecv f => if refused s f then v else file_h s'
+  | GForward f ok => if fwd_refused s f ok then v else file_h s'
   | _ => file_h s'
   end.
 Definition wf_gstep (s : st) (g : gstep) : Prop :=
@@ -381,6 +397,7 @@ Definition wf_gstep (s : st) (g : gstep) : Prop :=
   | GLeave q c => wal_mode s = true /\ wal_file s = [] /\ pg_wal q = false
   | GRestart => wf_restart s
   | GRecv f => wf_recv s f
+  | GForward f _ => wf_recv s f
   | GDrop => True
   | GImport pages commit => wf_import s pages commit
   end.
@@ -398,7 +415,7 @@ Fixpoint wf_gsteps (s : st) (gs : list gstep) : Prop :=
 
 Lemma g_step s v g s' : GInv s v -> wf_gstep s g -> grun s g = Some s' -> GInv s' (gview s s' g v) /\ lockpg s' = lockpg s.
 Proof.
-  intros HI Hwf H. destruct (ginv_basic s v HI) as [Hlk Hw]. destruct g as [h|zf acts c|o|q c| |f| |pages commit]; cbn [grun wf_gstep gview] in *.
+  intros HI Hwf H. destruct (ginv_basic s v HI) as [Hlk Hw]. destruct g as [h|zf acts c|o|q c| |f|f ok| |pages commit]; cbn [grun wf_gstep gview] in *.
   - destruct Hwf as [Hm Hws]. unfold GInv in HI. rewrite Hm in HI. destruct HI as [HJ [Hf Hk]].
     destruct (run_group s (hops s h)) as [code s1] eqn:E. destruct code; [|discriminate]. inversion H; subst s1. clear H.
     destruct (j_step s h s' HJ Hws E) as [HJ' El]. split; [|exact El].
@@ -426,6 +443,10 @@ Proof.
     assert (oc = Done \/ oc = Failed) as Hoc by (destruct oc; try discriminate; auto).
     assert (s1 = s') as -> by (destruct oc; try discriminate; inversion H; reflexivity).
     apply (recv_step s v f oc s' HI Hwf E Hoc).
+  - destruct (op_forward s f ok) as [oc s1] eqn:E.
+    assert (oc = Done \/ oc = Failed) as Hoc by (destruct oc; try discriminate; auto).
+    assert (s1 = s') as -> by (destruct oc; try discriminate; inversion H; reflexivity).
+    apply (forward_step s v f ok oc s' HI Hwf E Hoc).
   - destruct (op_drop s) as [oc s1] eqn:E. destruct oc; try discriminate. inversion H; subst s1. clear H.
     apply (drop_step s v s' HI E).
   - destruct (op_import s pages commit true) as [oc s1] eqn:E. destruct oc; try discriminate. inversion H; subst s1. clear H.
@@ -470,7 +491,8 @@ Qed.
 (* a concrete history that meets the hypotheses (the non-vacuity example of Props/C04.v): create the database; restart;
    switch to WAL mode; a WAL transaction that grows the database; restart with the log in place; another transaction; a
    complete SQLite checkpoint with the restart of the log; back to rollback-journal mode; a rollback-journal transaction; a
-   file from the stream applied, a stray one refused; a transaction of its own again; a drop; an import *)
+   file from the stream applied, a stray one refused; a forwarded transaction refused, one applied; a drop; an
+   import *)
 Lemma g_history_example :
   let pg h n := mkPg (fl h) n false in
   let pw h n := mkPg (fl h) n true in
@@ -486,7 +508,8 @@ Lemma g_history_example :
              GJ (HTx [] [AWrite 3 (pg 36 0)] 3);
              GRecv (mkLtx 7 7 (x3 15 24 36) (x3 15 27 36) 3 [(2, pg 27 0)]);
              GRecv (mkLtx 9 9 0 0 1 []);
-             GJ (HTx [] [AWrite 1 (pg 18 3)] 3);
+             GForward (mkLtx 8 8 0 0 1 []) true;
+             GForward (mkLtx 8 8 (x3 15 27 36) (x3 18 27 36) 3 [(1, pg 18 3)]) true;
              GDrop;
              GImport [(1, pg 41 2); (2, pg 42 0)] 2] in
   wf_gsteps (init 2097153) gs /\
@@ -530,7 +553,8 @@ Proof.
     split; [cbn [pageN l_commit]; intros x Hx _; lia|]; split; [discriminate|left; discriminate].
   gnext s9 E9. split. { wf_rcv. }
   gnext s10 E10. split. { wf_rcv. }
-  gnext s11 E11. split. { split; [reflexivity|]. cbn [wf_step]. wf_tx. }
+  gnext s11 E11. split. { wf_rcv. }
+  gnext s11b E11b. split. { wf_rcv. }
   gnext s12 E12. split; [exact I|].
   gnext s13 E13. split.
   { split; [intros p q H; in_one H|]. split; [unfold KeysNoDup; cbn [map fst]; repeat constructor; cbn [In]; lia|].
